@@ -105,10 +105,10 @@ def depth_probes(model):
     return out
 
 
-def run_extra(ck, bdir, system, histories, label, view_tail=None):
+def run_extra(ck, bdir, system, histories, label, view_tail=None, extra_args=()):
     """harness-enumerated histories validated by EmuTrace"""
     from vlib import tv
-    res = core.pmap(lambda h: emuhist.run_one(bdir, system, h, lint=True,
+    res = core.pmap(lambda h: emuhist.run_one(bdir, system, h, lint=True, extra_args=extra_args,
                                               view_from=(len(h) - view_tail) if view_tail else 0), histories)
     execs = [r[0] for r in res]
     tvr = tv.validate("EmuTrace", "EmuTrace.cfg", execs, None,
@@ -152,6 +152,7 @@ def main_c08(tier):
     for model in ("nodes", "mpi", "tampi", "openmp", "nosv", "nanos6", "kernel"):
         mt = emuhist.model_table()[model]
         fam = pair_family(model, tier)
+        fam0 = fam
         npairs += len(pairs_of(model))
         if tier == "quick" and len(fam) > 260:
             rng = random.Random(core.seed())
@@ -164,6 +165,11 @@ def main_c08(tier):
             fam = keep
         run_extra(ck, bdir, sys1({"O", mt["char"]}), fam, "C08/pairs/" + model)
         run_extra(ck, bdir, sys1({"O", mt["char"]}), depth_probes(model), "C08/depth/" + model, view_tail=3)
+        if mt["char"] in "V6":
+            # the clause shapes once more with the breakdown option next to lint mode (-b -l): the verdicts and
+            # the thread / CPU timelines are the same
+            clause = [h for i in range(0, len(fam0), 11) for h in fam0[i:i + 5]]
+            run_extra(ck, bdir, sys1({"O", mt["char"]}), clause, "C08/pairs-with-breakdown/" + model, extra_args=("-b",))
     ck.notes["table_pairs"] = npairs
     ck.phase("pair_families")
     ck.assumptions += ["event tables (spec/data/events.json -> EventData.tla) are committed data transcribed from the "
